@@ -3,6 +3,7 @@
 
 from __future__ import annotations
 
+import math
 from fractions import Fraction
 
 import common
@@ -276,6 +277,14 @@ def gen_case(rng, tier):
             for h, v in zip(hist, centred_profile(r5, len(hist))):
                 h[1] = fjson(v)
             q["hist_profile"] = "centred"
+        # session 2 (seed C04-10): the history's rating field stored with an INTEGER dtype (whole-star ratings, as a pandas int
+        # column gives them) -- a storage type of the supplied field, drawn from a fork; the ratings are rounded up to whole stars
+        r6 = rng.fork(f"history-int-{len(queries)}")
+        if hist and r6.chance(1, 6):
+            for h in hist:
+                h[1] = fjson(Fraction(math.ceil(fparse(h[1]))))
+            q["hist_form"] = "i64"
+            q.pop("hist_profile", None)
         queries.append(q)
     # the other vocabularies lists are built against: a catalogue (superset, numbering differs) and a filtered subset
     rc = rng.fork("catalogue")
